@@ -47,6 +47,13 @@ func childMain() {
 	// control channel: "STATS" on stdin is answered with "STATS <goroutines> <command reader goroutines>"
 	in := bufio.NewScanner(os.Stdin)
 	for in.Scan() {
+		if strings.TrimSpace(in.Text()) == "HEAP" { // live heap after a forced collection
+			runtime.GC()
+			runtime.GC()
+			var ms runtime.MemStats
+			runtime.ReadMemStats(&ms)
+			fmt.Printf("HEAP %d\n", ms.HeapAlloc)
+		}
 		if strings.TrimSpace(in.Text()) == "STATS" {
 			buf := make([]byte, 1<<20)
 			for {
@@ -192,6 +199,26 @@ func (c *child) stats() (int, int) {
 	case <-time.After(20 * time.Second):
 	}
 	return -1, -1
+}
+
+// heap asks the child for its live heap in bytes after a forced GC (-1: no answer).
+func (c *child) heap() int64 {
+	for len(c.lines) > 0 {
+		<-c.lines
+	}
+	if _, err := io.WriteString(c.stdin, "HEAP\n"); err != nil {
+		return -1
+	}
+	select {
+	case l := <-c.lines:
+		var h int64
+		if n, _ := fmt.Sscanf(l, "HEAP %d", &h); n == 1 {
+			return h
+		}
+	case <-c.done:
+	case <-time.After(30 * time.Second):
+	}
+	return -1
 }
 
 // readersSettle polls until at most `want` reader goroutines are alive (they end a moment after their connection) or
